@@ -201,3 +201,25 @@ P["C17"] = {
                     "to one with the same decryption"],
     "extra_coverage": _c17_cov,
 }
+
+P["C15"] = {
+    "lean_modules": ["Heathcliff.Props.C15"],
+    "level": "proof",
+    "runs": lambda tier, seed: [{"seed": seed}] if tier == "quick" else [{"seed": seed * 1000 + i} for i in range(3)],
+    "search": lambda tier, seed: [{"seed": seed * 7919 + i} for i in range(1)],
+    "rule": "Every serializable type (scalars, Vec, Modulus, SchemeType, ParmsID, EncryptionParameters, Plaintext/SecretKey, Ciphertext/PublicKey in compact, full and selected-terms format, seeded and expanded, Relin/Galois/KSwitch keys with missing entries, Cipher/Plain 1d/2d/3d incl. empty, rns_plain, PolynomialSerializer) over hand-built contexts (SecurityLevel::None, N=2..16, primes straddling every byte boundary). Writers: every constant per-call limit 1..8, random limit sequences, failure at the first / last / a random / no call. Readers: every truncation offset for encodings up to 160 bytes (thorough: 600 bytes, 14 parameter families, 3 seeds), stratified (first 48, last 12, 40 random) above. A case is one (object bytes, fault sequence) or (object bytes, offset) line; the Lean model predicts the exact Ok/Err result and the bytes on the sink.",
+    "assumptions": ["std::io::Write::write_all is the documented loop (modelled by writeAllFuel); ErrorKind::Interrupted retries are not modelled (the injected fault is ErrorKind::Other)",
+                    "read_exact on an in-memory slice returns UnexpectedEof iff fewer bytes remain than requested",
+                    "streams are those defined by a per-call acceptance-limit sequence (cycled) and one optional failing call, as the property quantifies"],
+    "extra_coverage": lambda res: {"fault_sequences": sum(v for k, v in res.fns.items() if k == "c15w"), "truncation_offsets": sum(v for k, v in res.fns.items() if k == "c15r")},
+}
+
+P["C14"] = {
+    "lean_modules": ["Heathcliff.Props.C14"],
+    "level": "proof",
+    "runs": lambda tier, seed: [{"seed": seed}],
+    "search": lambda tier, seed: [{"seed": seed * 7919 + i} for i in range(1)],
+    "rule": "Every object type x ciphertext sizes 2,3,one of 4/7/16 (thorough and every third family: 2..16) x every level of the modulus chain x NTT / coefficient representation x seeded / expanded x key sets with missing entries and empty rows x empty and ragged containers x 8 (thorough 14) parameter families with primes next to every byte boundary (5..61 bits) x term subsets (empty, all, last, random, reversed). Model-compared cases: the Lean decoder applied to the implementation's bytes (+0..3 trailing bytes) must print the implementation's restored object, consumed = announced = written, and re-encode to the same bytes. Verdict lines (harness oracle): field-wise equality with the original / seed-expanded / term-masked object, reader in a context rebuilt from the serialized parameters, concatenated streams, relinearization with restored seeded keys = expanded keys.",
+    "assumptions": ["seed expansion (blake3 XOF + rejection sampling) is an input of the model: the expanded polynomial is taken from the implementation (its determinism is C16)",
+                    "the NTT of the selected-terms format is the C09 model (tables rebuilt from the modulus)"],
+}
